@@ -232,6 +232,14 @@ func (c *Ctx) AddDistinct(n int64) {
 	c.st.DistinctNT += n
 }
 
+// NewStandaloneCtx returns a context that is not attached to an explorer:
+// every choice takes its default.  Used by helper processes that only need the
+// scheduler/wire machinery to run a single default execution.
+func NewStandaloneCtx() *Ctx {
+	st := &Stats{Counters: map[string]int64{}, seen: map[[16]byte]struct{}{}, violKeys: map[string]int{}}
+	return &Ctx{counters: st.Counters, st: st, pruneFrom: 1 << 60}
+}
+
 // Count adds to a named anti-vacuity counter.
 func (c *Ctx) Count(name string, n int64) {
 	c.counters[name] += n
